@@ -58,7 +58,8 @@ def gen_case(st, tier, env):
     fam = k.random()
     if fam < 0.6:
         scheme = gen.preset(k.choice(gen.PRESETS), k.choice([1.0, 0.5, 0.5, 0.25]))
-        mult = k.choice([1, 1, 2, 3, 0.5, 10])
+        mult = k.choice([1, 1, 2, 3, 0.5, 10, k.randint(1, 200), k.randint(1, 200), round(k.uniform(0.1, 10), 1),
+                         round(k.uniform(0.1, 10), 2), 1 / 3, 1e-3, 1e6])
         scheme = gen.scale(scheme, mult)
         scheme["family"] = "preset*%s" % mult
     else:
